@@ -244,6 +244,8 @@ func baseIntrinsics() map[string]intrinsicFn {
 		"runtime.KeepAlive", "runtime.GC", "runtime.Gosched", "runtime/debug.FreeOSMemory", "runtime.SetFinalizer", "runtime/debug.PrintStack"} {
 		m[n] = nop
 	}
+	// worker pools sized by the CPU count get two workers in the model (enough for any interleaving of two)
+	m["runtime.NumCPU"] = func(in *Interp, fn *ssa.Function, args []Value) Value { return in.tb.Const(64, 2) }
 	m["runtime/debug.Stack"] = func(in *Interp, fn *ssa.Function, args []Value) Value { return SliceV{} }
 
 	// ---- sync: no-ops in sequential mode ----
